@@ -50,11 +50,11 @@ def confirm(ob_, cex):
 
 def obligations(tier):
     obs = [kernels.e1("C13", "retry_kernel", "retry_kernel", timeout=300)]
-    hist = [("D10", 6, {"control": "either"}), ("D10c", 6, {}), ("D10s", 8, {}), ("D10l", 9, {}), ("D10w", 6, {})]
+    hist = [("D10", 6, {"control": "either"}), ("D10c", 6, {}), ("D10s", 8, {}), ("D10l", 9, {}), ("D10w", 6, {}), ("D28", 7, {}), ("D28", 6, {"lazy_start": 1})]
     for did, steps, extra in hist:
         p = {"did": did, "steps": steps}
         p.update(extra)
-        o = ob("C13", "e2c." + did, "vt.harness.C13:retry", p, timeout=900)
+        o = ob("C13", "e2c." + did + (".lazy" if extra.get("lazy_start") else ""), "vt.harness.C13:retry", p, timeout=900)
         o["antecedents"] = ["c13_retried", "c13_reoffers"]
         obs.append(o)
     o = ob("C13", "e2c.requested.D10", "vt.harness.C13:retry", {"did": "D10", "steps": 6, "requested_first": True}, timeout=900)
